@@ -88,6 +88,44 @@ CHECKS.update({
     ),
 })
 
+CHECKS.update({
+    "C11": (
+        "Lean theorems about models of the interactive, NumPy and bit-set engines (layers = distance classes; rank/unrank round trip) + correspondence against the proven reference BFS",
+        "Proof for the interactive and NumPy engine models and the abstract bit-set BFS; the numba arithmetic of the bit-mask engine is modelled (partial) and tied by running n = 9 (10) against the proven oracle and rank/unrank against the model.",
+        "5 C11",
+    ),
+    "C13": (
+        "thin Lean model of input normalisation / widening cast (congruence theorems, negative example without the cast) + exhaustive enumeration of the finite product entry point x container x dtype x shape",
+        "Proof about a thin model plus an exhaustively enumerated finite configuration space on fixed graphs: every cell must equal the flat-list cell.",
+        "5 C13",
+    ),
+    "C14": (
+        "Lean state-machine model of a graph object with caches and copies (history independence theorem) + random operation sequences compared with fresh objects and fingerprints of the immutable parts",
+        "Proof about the session model (bookkeeping of caches/copies for arbitrary semantic functions) tied to the code by operation sequences on one object and its copies compared with freshly constructed graphs.",
+        "5 C14",
+    ),
+    "C15": (
+        "closed-form specification of every family (Lean, with forall-parameter theorems for the range/cycle-built families) + exact comparison of generators/names/central state/name for all admissible parameters up to a cap + group orders by Schreier-Sims",
+        "Proof for the specified families (validity, counts, structure, inverse-closedness for all parameters) and exhaustive small-parameter comparison of the library with the specification; group orders are checked computations.",
+        "5 C15",
+    ),
+    "C16": (
+        "Lean model of the GAP reader/printer (parse-print theorem) and puzzle structure predicates + all 92 shipped files against an independent reader + structure checks of generated cubes, rings, globes",
+        "Proof for the GAP reader model and ring/globe structure where finished; per-instance checked computations for cubes; exhaustive over the shipped files.",
+        "5 C16",
+    ),
+    "C17": (
+        "Lean-proven reference BFS (layers = distance classes; capped variants are prefixes) executed on every row of every dataset",
+        "Proof of the oracle (refLayers_spec, growth_prefix, refLayersCap(W)_prefix); every dataset row is a closed instance decided by running the proven function: exact when the orbit is enumerable within the budget, prefix + positivity + known order otherwise.",
+        "5 C17",
+    ),
+    "C18": (
+        "Lean theorems load(save r) = r, field-wise equality, loaded results answer path queries, over a key-value model of the HDF5 layout + correspondence of the file layout and round trips with mutants",
+        "Proof about the save/load model tied to the code by comparing the real file's key/shape layout with the model, field-by-field round trips, single-field mutants for ==, and path queries on loaded results.",
+        "5 C18",
+    ),
+})
+
 NOT_YET = {
 }
 
